@@ -144,8 +144,7 @@ def run(ctx):
         hvcc += bytes([0x80 | ty, 0, 1]) + len(n).to_bytes(2, "big") + n
     items += rc.mutate(hvcc, "config", "H5/hvcC", dense=200, first=60)
     items += rc.mutate(bytes.fromhex("81000c000a0b0000000442abbfc3714a"), "config", "H5/av1C", dense=64, first=16)
-    inputs = rc.write_inputs(ctx, "c16.ndjson", items)
-    trace, fatals = rc.monitor(ctx, "c16", inputs, len(items))
+    trace, fatals = rc.monitor_sharded(ctx, "c16", items, shards=8)
     ctx.cov["evaluations"] = len(items)
     ctx.cov["distinct_nontrivial"] = len(set(b for _, _, b in items))
     ctx.add_samples([{"id": i, "kind": k, "hex": b.hex()[:160]} for i, k, b in items[:1] + items[len(items) // 2:len(items) // 2 + 2]])
